@@ -245,12 +245,14 @@ func TestEndResultsTruthful(t *testing.T) {
 				case "drop-response":
 					e.Net.AddRuleNext(f.Key, bubble.DropResponse, 0)
 				case "code-sticky":
-					code, left := f.Code, 6 // the client is configured with 3 request retries
+					code, left := f.Code, 4 // the client is configured with 3 request retries: exactly one EndTransaction call sees nothing else
 					stickyCodes++
 					e.Cluster.ControlKey(26, func(kreq kmsg.Request) (kmsg.Response, error, bool) {
 						left--
 						if left > 0 {
 							e.Cluster.KeepControl()
+						} else {
+							e.Cluster.DropControl() // KeepControl is a standing mark
 						}
 						resp := kreq.ResponseKind().(*kmsg.EndTxnResponse)
 						resp.ErrorCode = code
